@@ -217,6 +217,25 @@ func runWire(r *prng.R, s *out.Sink, tier string) {
 		s.Op("topicpre", n > 0, "wire topicpre "+out.U16s(ms), "sha256:"+out.Hex(threshold.VerifMembershipSyncTopicName(ms)))
 	}
 	key := r.Bytes(32)
+	// direct monitor: distinct members get distinct tags and distinct topic names, over the whole identifier space
+	tags := map[string]int{}
+	names := map[string]int{}
+	for id := 0; id < 65536; id++ {
+		t := string(disc.VerifPRF(key, uint16(id)))
+		if other, dup := tags[t]; dup {
+			s.Violate("C13", fmt.Sprintf("members %d and %d get the same synchroniser tag (messages of one are attributed to / dropped for the other)", other, id), fmt.Sprintf("wire prfin %d ; wire prfin %d", other, id))
+			break
+		}
+		tags[t] = id
+		n := string(threshold.VerifMembershipSyncTopicName([]uint16{7, uint16(id)}))
+		if other, dup := names[n]; dup {
+			s.Violate("C13", fmt.Sprintf("member lists [7 %d] and [7 %d] derive the same synchronisation topic", other, id), fmt.Sprintf("wire topicpre 7,%d ; wire topicpre 7,%d", other, id))
+			break
+		}
+		names[n] = id
+	}
+	s.Count("prf+topic distinctness over all ids")
+	s.N += 2 * 65536
 	for _, x := range boundaryIDs {
 		s.Op("prfin", true, fmt.Sprintf("wire prfin %d", x), "hmac:"+out.Hex(key)+":"+out.Hex(disc.VerifPRF(key, x)))
 	}
